@@ -122,7 +122,7 @@ def _replay(repo, outcome):
     """Log of one completed path (the decisions of the outcome replayed)."""
     from sa.sym import Interp
     from sa.rules import semreuse as me
-    decisions = [v for _, v in outcome.decisions]
+    decisions = list(outcome.raw) if outcome.raw is not None else [v for _, v in outcome.decisions]
     box = {}
     fn = closure_of(repo, "svg_reuse", "affine_between")
 
